@@ -221,22 +221,10 @@ def conversion_factors(ctx):
 def evaluate_multinet(ctx):
     """the multinet is reported converged iff every member net is"""
     ctx.assume("A4", "A6")
-    import ast
-    f = S.get_function(RC + ":_evaluate_multinet")
-    src = ast.unparse(f.node)
-    # structure: one entry per net name in multinet['nets'], conjunction by np.all
-    loops = [n for n in ast.walk(f.node) if isinstance(n, ast.For)]
-    ok_loop = len(loops) == 1 and ast.unparse(loops[0].iter) == "multinet['nets'].keys()"
-    ctx.decided("one-entry-per-net", "ensures", ok_loop, witness=ast.unparse(loops[0].iter) if loops else "no loop")
-    app = [n for n in ast.walk(f.node) if isinstance(n, ast.AugAssign) and
-           ast.unparse(n.target) == "multinet_converged"]
-    ok_app = len(app) == 1 and ast.unparse(app[0].value) == "[ctrl_variables['nets'][net_name]['converged']]" \
-        and any(app[0] in ast.walk(l) for l in loops)
-    ctx.decided("collects-each-net-flag", "ensures", ok_app, witness=[ast.unparse(a) for a in app])
-    fin = [n for n in ast.walk(f.node) if isinstance(n, ast.Assign) and
-           ast.unparse(n.targets[0]) == "ctrl_variables['converged']"]
-    ok_all = len(fin) == 1 and ast.unparse(fin[0].value) == "np.all(multinet_converged)"
-    ctx.decided("conjunction", "ensures", ok_all, witness=[ast.unparse(a) for a in fin])
+    # (the three text-matching obligations of the first session -- loop header, list append, `np.all(<name>)` -- were removed:
+    #  they raised alarms on renamed locals; what they stood for is decided on VALUES by the unit evaluate_multinet_levels:
+    #  `reports-conjunction-of-current-flags`, `reruns-exactly-the-affected-nets`, `flag-of-<net>-is-the-rerun-result`)
+    ctx.use_function(S.get_function(RC + ":_evaluate_multinet"))
     # np.all over booleans is the conjunction (model) -- for 1..4 nets
     bs = [z3.Bool("conv_%d" % i) for i in range(4)]
     from pvc import npmodel
